@@ -84,10 +84,11 @@ def main():
             print('   ERROR', r['error'])
         if r.get('confirmed'):
             k = os.path.basename(r['seed'].rstrip('/'))
-            dst = os.path.join(VERIF, 'seeded', f"{pid}-{k}")
+            dst = os.path.join(VERIF, 'seeded', k if k.startswith(pid + '-') else f"{pid}-{k}")
             os.makedirs(dst, exist_ok=True)
             for fn in ('patch.diff', 'demo.py'):
-                shutil.copy(os.path.join(r['seed'], fn), os.path.join(dst, fn))
+                if os.path.abspath(os.path.join(r['seed'], fn)) != os.path.abspath(os.path.join(dst, fn)):
+                    shutil.copy(os.path.join(r['seed'], fn), os.path.join(dst, fn))
             meta = json.load(open(os.path.join(r['seed'], 'meta.json')))
             meta['confirmed_by_framework_author'] = {'pytest_with_change': r['pytest_with_change'], 'demo_with_change_exit': r['demo_with_change_rc'], 'demo_without_change_exit': r['demo_without_change_rc'],
                                                     'how': 'tools/seed_eval.py: scratch worktree of /repo HEAD, git apply, pytest, demo with N2K_REPO=<scratch>, git checkout, demo again'}
